@@ -73,7 +73,9 @@ FRAGS += ["Def/MyDef/a$b", "Def/MyDef/ok", "Def/Plain", "Label/a$b", "Property/I
           "Property/Sensory-property/Sensory-attribute/Visual-attribute/Color/CSS-color/Red-color/Red/Crimson"]
 # fragments whose offending piece is known by construction: (code, exact text the offsets must select)
 FRAGS += ["Label/two  words", "Red  /Bloody", "Duration/3  s"]      # runs of blanks inside a tag
-EXPECT = {"Label/two  words": ("TAG_INVALID", "  "), "Red  /Bloody": ("TAG_INVALID", "  /"), "Duration/3  s": ("TAG_INVALID", "  "),
+FRAGS += ["Fooo/Bar", "Fooo/Bar/Baz", "/Blue", "Blue/"]              # the offending piece starts at the first character of the tag
+EXPECT = {"Fooo/Bar": ("TAG_INVALID", "Fooo"), "Fooo/Bar/Baz": ("TAG_INVALID", "Fooo"), "/Blue": ("TAG_INVALID", "/"), "Blue/": ("TAG_INVALID", "/"),
+          "Label/two  words": ("TAG_INVALID", "  "), "Red  /Bloody": ("TAG_INVALID", "  /"), "Duration/3  s": ("TAG_INVALID", "  "),
           "Def/MyDef/a$b": ("CHARACTER_INVALID", "$"), "Label/a$b": ("CHARACTER_INVALID", "$"), "Property/Informational-property/Label/a$b": ("CHARACTER_INVALID", "$"),
           "Informational-property/Label/x$y": ("CHARACTER_INVALID", "$"), "Label/a b": ("CHARACTER_INVALID", " "),
           "Item/Object/Man-made-object/Vehicle/Train/Maglev": ("TAG_EXTENDED", "/Maglev"), "Train/Maglev": ("TAG_EXTENDED", "/Maglev"),
@@ -107,7 +109,7 @@ def _gen_string(g):
 def generate(run_index, seed, tier):
     g = Gen(seed)
     strings = [_gen_string(g) for _ in range(g.randint(2, 5))]
-    sidecar = {"tt": {"HED": {"go": g.pick(strings), "stop": _gen_string(g)}},
+    sidecar = {"tt": {"HED": {"go": g.pick(strings), "stop": _gen_string(g), "Go": _gen_string(g)}},      # keys differing only by case
                "val": {"HED": "Label/#, " + g.pick(["Red", "Red", "Blue", "(Green, Square)", "Grren", "Train/Maglev", "Duration/3 cm"])}}
     if g.chance(0.5):
         # a fourth HED-bearing column, so that rows with three and four non-empty cells occur (span remapping)
@@ -136,7 +138,7 @@ def generate(run_index, seed, tier):
         r = g.random()
         if r < 0.2:
             typ = g.pick(["FILE_NAME", "SIDECAR_COLUMN_NAME", "SIDECAR_KEY_NAME", "ROW", "COLUMN"])
-            val = {"FILE_NAME": g.pick(["a.tsv", "b.json"]), "SIDECAR_COLUMN_NAME": g.pick(["tt", "val"]), "SIDECAR_KEY_NAME": g.pick(["go", "stop"]),
+            val = {"FILE_NAME": g.pick(["a.tsv", "b.json"]), "SIDECAR_COLUMN_NAME": g.pick(["tt", "val"]), "SIDECAR_KEY_NAME": g.pick(["go", "stop", "Go", "STOP"]),
                    "ROW": g.randrange(1, 16), "COLUMN": g.pick(["HED", "tt"])}[typ]
             ops.append(["push", typ, val])
             depth += 1
